@@ -278,8 +278,9 @@ func (l *WAL) Switch() (*WalFiles, error) {
 	for i := 0; i < l.partitionNum; i++ {
 		go func(lw *LogWriter) {
 			files, err := lw.Switch()
-			errs.Dispatch(err)
+			// Dispatch releases the waiter (errs.Err below): the file list must be complete before that
 			walFiles.Add(files...)
+			errs.Dispatch(err)
 		}(&l.logWriter[i])
 	}
 
